@@ -1,24 +1,24 @@
 (* C05 — the theorems assembled over all operations. *)
-From C05 Require Import Model Spec Corr Proofs ProofsRound ProofsBits ProofsCmp ProofsDiv ProofsGcd ProofsArith.
+From C05 Require Import Model Spec Corr Proofs ProofsRound ProofsBits ProofsCmp ProofsDiv ProofsGcd ProofsArith ProofsExt.
 Open Scope Z_scope.
 
 (* inside the guard: exact result, canonical representation, operands untouched *)
 Theorem exact_on_domain o args :
   in_domain o args = true -> s_out o args = Some (m_op o args).
 Proof.
-  intros Hd. destruct o as [ | | | |m| | | | | | | |c|b| ].
+  intros Hd. destruct o as [ | | | |m| | | | | | | |c|b| |mx].
   - apply add_exact, Hd. - apply sub_exact, Hd. - apply mul_exact, Hd. - apply div_exact, Hd.
   - destruct m; [apply floor_exact|apply ceiling_exact|apply truncate_exact|apply round_exact]; exact Hd.
   - apply mod_exact, Hd. - apply rem_exact, Hd. - apply abs_exact, Hd. - apply inc_exact, Hd. - apply dec_exact, Hd.
   - apply gcd_exact, Hd. - apply lcm_exact, Hd.
   - destruct c; [apply cmp_exact|apply cmp_exact|apply cmp_exact|apply cmp_exact|apply eq_exact]; try discriminate; exact Hd.
-  - apply bit_exact, Hd. - apply lognot_exact, Hd.
+  - apply bit_exact, Hd. - apply lognot_exact, Hd. - apply ext_exact, Hd.
 Qed.
 
 (* no operation alters an operand, whatever the operands are *)
 Theorem operands_untouched o args : o_args (m_op o args) = args.
 Proof.
-  destruct o as [ | | | |m| | | | | | | |c|b| ]; cbn [m_op]; try reflexivity.
+  destruct o as [ | | | |m| | | | | | | |c|b| |mx]; cbn [m_op]; try reflexivity.
   - unfold m_sub. destruct args as [|a [|? ?]]; reflexivity.
   - unfold m_div. destruct args as [|a [|? ?]]; try reflexivity.
     destruct a as [[|[?|?|]|?]|z|n d|]; try reflexivity.
@@ -42,7 +42,7 @@ Theorem value_exact o args :
     res_same_value (o_res so) (o_res (m_op o args)) = true /\
     o_args (m_op o args) = args.
 Proof.
-  intros Hd. destruct o as [ | | | |m| | | | | | | |c|b| ]; try discriminate Hd; cbn [value_domain] in Hd.
+  intros Hd. destruct o as [ | | | |m| | | | | | | |c|b| |mx]; try discriminate Hd; cbn [value_domain] in Hd.
   - destruct (round_value_exact m args Hd) as (so & H1 & H2 & H3). exists so. auto.
   - destruct (modrem_value_exact OMod args (or_introl eq_refl) Hd) as (so & H1 & H2 & H3). exists so. auto.
   - destruct (modrem_value_exact ORem args (or_intror eq_refl) Hd) as (so & H1 & H2 & H3). exists so. auto.
@@ -71,4 +71,18 @@ Lemma repaired_examples :
   in_domain ODiv [VFix 6; VFix 4; VFix (-3)] = true /\ in_domain ODiv [VFix (-9223372036854775808); VFix (-1)] = true /\
   in_domain OGcd [VBig B; VFix 10; VFix (-9223372036854775808)] = true /\
   in_domain OLcm [VFix 4611686018427387904; VFix 3; VBig (- B)] = true.
+Proof. repeat split; vm_compute; reflexivity. Qed.
+
+(* max and min: whatever the operands, the result is one of the operand objects (or a float took part) *)
+Theorem ext_operand mx args v : o_res (m_op (OExt mx) args) = RVal v -> v = VInexact \/ In v args.
+Proof.
+  cbn [m_op m_ext o_res]. destruct args as [|a rest]; [discriminate|]. apply ext_is_operand.
+Qed.
+Lemma ext_examples :
+  in_domain (OExt true) [VFix (-9223372036854775808); VFix 1] = true /\
+  in_domain (OExt false) [VFix 5000000000000000000; VFix 6000000000000000000; VFix (-5000000000000000000)] = true /\
+  in_domain (OExt true) [VRat (-1) 2; VFix 0; VRat 1 3] = true /\ in_domain (OExt false) [VBig B; VFix 1; VBig (- B)] = true /\
+  in_domain (OExt true) [VBig B; VRat 1 2] = false /\
+  o_res (m_op (OExt true) [VFix (-9223372036854775808); VFix 1]) = RVal (VFix 1) /\
+  o_res (m_op (OExt false) [VFix (-4611686018427387904); VFix 4611686018427387904]) = RVal (VFix (-4611686018427387904)).
 Proof. repeat split; vm_compute; reflexivity. Qed.
